@@ -735,10 +735,35 @@ def gen_big_structure(rng, ndirs=None):
     return P
 
 
+def gen_warn_suggest(rng):
+    """files in the WARNING band (warn_threshold x limit < sloc <= limit) whose functions add up to more than one 300-line chunk of
+    the split analyzer, so that --suggest attaches suggestions to a Warning result; next to one over the limit and a small one"""
+    P = Project()
+    P.tags |= {"warnband", "suggestable"}
+    nf, body_lines = rng.choice([(4, 98), (5, 98), (5, 78), (6, 70)])
+    total = nf * (body_lines + 2)
+    limit = total + rng.choice([10, 50, 100])
+    P.max_lines = limit
+    thr = rng.choice([0.5, 0.7, 0.8])
+    P.config = 'version = "2"\n[content]\nmax_lines = %d\nwarn_threshold = %s\nextensions = ["rs"]\n' % (limit, thr)
+
+    def fns(n, k, name):
+        return "".join("fn %s_%d() {\n%s}\n" % (name, f, "".join("    let v%d = %d;\n" % (i, i) for i in range(1, k + 1))) for f in range(1, n + 1))
+    P.files[b"src/near_limit.rs"] = fns(nf, body_lines, "handler")
+    if rng.random() < 0.7:
+        P.files[b"src/also_near.rs"] = fns(nf, body_lines, "other") + "\n// tail\n"
+    if rng.random() < 0.7:
+        P.files[b"src/over.rs"] = fns(nf + 1, body_lines + 10, "big")
+    P.files[b"src/small.rs"] = "fn small() {}\n"
+    return P
+
+
 def gen_project(rng, kind):
     """kind: none | plain | ties | hostile | structure | baseline | customlang | mixed"""
     if kind == "bigstructure":
         return gen_big_structure(rng)
+    if kind == "warnband":
+        return gen_warn_suggest(rng)
     P = Project()
     P.tags.add(kind)
     hostile = kind in ("hostile", "mixed") or rng.random() < 0.5
